@@ -56,6 +56,12 @@ type Env map[string]*V
 // one known finding and to nothing else.)
 var Misses int
 
+// MultiCtx counts, since it was last reset, the operator evaluations whose list of current nodes
+// held two or more nodes. eval-all pairs and collects document roots across the whole list
+// (that is how `select(fi == 0) * select(fi == 1)` merges two files), so an evaluation in that
+// mode is only judged by this per-node reference when the count stayed zero.
+var MultiCtx int
+
 func (e Env) With(k string, v *V) Env {
 	n := Env{}
 	for a, b := range e {
@@ -334,6 +340,9 @@ func Eval(e *E, ctx []*V, env Env) ([]*V, error) {
 }
 
 func eval1(e *E, ctx []*V, env Env) ([]*V, error) {
+	if len(ctx) >= 2 {
+		MultiCtx++
+	}
 	if len(ctx) == 0 {
 		switch e.Op {
 		case "lit", "var", "collect", "object", "bin", "as", "reduce":
